@@ -59,13 +59,18 @@ func ReadMessage(buf *[]byte, r ByteReadReader, msg proto.Message) error {
 
 	for read != size {
 		n, err := r.Read(b[read:])
+		read += uint64(n)
+		if read == size {
+			// The message is complete. An io.Reader may return its last bytes
+			// together with an error such as io.EOF, the next read reports it.
+			break
+		}
 		if err == io.EOF {
 			return fmt.Errorf("unexpected EOF, expected %d more bytes", size)
 		}
 		if err != nil {
 			return err
 		}
-		read += uint64(n)
 	}
 	err = proto.Unmarshal(b, msg)
 	if err != nil {
